@@ -492,3 +492,44 @@ def shared_fields_rule(ctx, LA, classes, roots, self_concurrent=(), floor=1, aud
                   fq.split("::")[-1] + " is " + detail, fq + " is " + detail + " (data race)", wit)
     ctx.counters["shared_fields_audited"] = n
     ctx.floor("shared_fields_audited", floor, "fields found to be shared between threads")
+
+
+# ---------------------------------------------------------------- error discipline: plugin initialisation
+# call sites that may drop the result of BasePlugin::init / initPlugin, with the reason
+INIT_RESULT_DROPPED_OK = {
+    "Oomd::Engine::DetectorGroup::DetectorGroup": "the detector clone is initialised with exactly the arguments and construction context with which the template's "
+                                                  "init() already succeeded when the configuration was compiled",
+}
+
+
+def init_results_checked(ctx, tag):
+    """Every library call of BasePlugin::init / initPlugin has its result tested (used in a condition, returned or stored),
+    i.e. a plugin whose arguments were refused never goes on to run half-initialised."""
+    P = ctx.prog
+    n = 0
+    for f in sorted(P.fns.values(), key=lambda x: (x.file, x.line)):
+        if not f.file.startswith("oomd/"):
+            continue
+        for i in f.calls():
+            nd = f.nodes[i]
+            if nd.get("cname") not in ("init", "initPlugin") or "recv" not in nd or not nd.get("ccls", "").endswith("BasePlugin"):
+                continue
+            if f.pos_of(i) is None:
+                continue
+            n += 1
+            par = f.parent.get(i)
+            dropped = par is None or f.nodes[par]["k"] in ("compound", "for", "while", "rangefor", "if") and f.nodes[par].get("c") != i
+            owner = f
+            while owner.kind == "lambda" and owner.d.get("parentfn") in P.fns:
+                owner = P.fns[owner.d["parentfn"]]
+            inst = "%s:init-result-checked:%s" % (tag, short(owner))
+            if dropped and owner.pq in INIT_RESULT_DROPPED_OK:
+                ctx.ok(inst, "error-discipline(audited)", f.loc(i), INIT_RESULT_DROPPED_OK[owner.pq])
+            else:
+                ctx.check(not dropped, inst, "error-discipline (result of init must be used)", f.loc(i),
+                          "the result of %s() is tested" % nd["cname"],
+                          "the result of %s is dropped: when the plugin refuses its arguments (e.g. the extra 'cgroup' default given to every action of a "
+                          "per-cgroup ruleset instance, which systemd_restart does not declare) it runs half-initialised - arguments that come later "
+                          "in the map (dry, service, post_action_delay) keep their defaults" % f.text(i)[:60])
+    ctx.counters[tag + "_init_call_sites"] = n
+    ctx.floor(tag + "_init_call_sites", 3, "call sites of BasePlugin::init/initPlugin in the library")
